@@ -822,3 +822,34 @@ contract(
             f"(LOG({_w(p)}) - LOG(self._rescale_factor['{p}']) + "
             f"({_back(p)}))" for p in "ab") + ")"],
 )
+
+
+# ---- the data-dependent update step: the new bounds are the extreme values
+# ---- of the training points (after the offset), so every training point is
+# ---- rescaled into the closed rescale interval and both ends are attained
+shape("RescaleUpdate", {
+    "_update": "Bool", "parameters": "PyConst(['a', 'b'])",
+    "offsets": D2, "bounds": "Dict(a:PyList(Real,2),b:PyList(Real,2))",
+}, cls="RescaleToBounds")
+contract(RR, "RescaleToBounds.pre_rescaling", props=["C07"], inline=True,
+         verify=False)
+_UB = []
+for _p in "ab":
+    _UB += [
+        f"implies(old(self._update), forall(i, 0, len(x), "
+        f"self.bounds['{_p}'][0] <= x['{_p}'][i] - self.offsets['{_p}'] and "
+        f"x['{_p}'][i] - self.offsets['{_p}'] <= self.bounds['{_p}'][1]))",
+        f"implies(old(self._update), exists(i, 0, len(x), "
+        f"x['{_p}'][i] - self.offsets['{_p}'] == self.bounds['{_p}'][0]) and "
+        f"exists(i, 0, len(x), x['{_p}'][i] - self.offsets['{_p}'] == "
+        f"self.bounds['{_p}'][1]))",
+        f"implies(not old(self._update), self.bounds['{_p}'][0] == "
+        f"old(self.bounds['{_p}'][0]) and self.bounds['{_p}'][1] == "
+        f"old(self.bounds['{_p}'][1]))"]
+contract(
+    RR, "RescaleToBounds.update_bounds", props=["C07"],
+    self_shape="RescaleUpdate", params={"x": XS},
+    requires=["len(x) >= 1"],
+    opaque_callees=["update_prime_prior_bounds"],
+    modifies=["self.bounds"], ensures=_UB,
+)
